@@ -62,7 +62,8 @@ UnpackBlock(b, decs) ==
         ELSE LET sel == b.raw[1]
                  j == FirstOf(decs, LAMBDA d : d.kind = "ecc" /\ d.sel = sel) IN
              IF j = 0 THEN BlockRes("unknown", <<>>, [tag |-> b.tag, sel |-> 0, version |-> 0, code |-> <<>>, raw |-> b.raw])
-             ELSE IF decs[j].priv = 0 THEN BlockRes("error:public-only", <<>>, <<>>)
+             \* a matching encryptor that cannot decrypt (public key only) leaves the block unopened, like no decryptor at all
+             ELSE IF decs[j].priv = 0 THEN BlockRes("unknown", <<>>, [tag |-> b.tag, sel |-> 0, version |-> 0, code |-> <<>>, raw |-> b.raw])
              ELSE IF Len(b.raw) < 82 \/ b.raw[2] # 4 \/ Len(b.ecckey) # 16 THEN BlockRes("error:ecc-format", <<>>, <<>>)
              ELSE BlockRes("ok", CbcDec(b.ecckey, Zero16, SubSeq(b.raw, 67, 82)),
                            [tag |-> 3, sel |-> sel, version |-> 0, code |-> <<>>, raw |-> <<>>])
